@@ -250,6 +250,9 @@ func propC13(c *Ctx, r *Report) {
 	r.Clauses = append(r.Clauses, "no withdrawal during the walk (E80): a walk that drops statements on behalf of the members of a candidate set reaches no function that deletes members from that set")
 	c.runCommitRevoke(r, "commit.revoke", inPkgs("dxil/internal/passes", "ir"))
 	r.floor("commit.revoke", 2)
+	r.Clauses = append(r.Clauses, "marks cleared, marks restored (E81): a pass driver that runs a phase clearing liveness marks runs afterwards a marking from the statements that stay (a function reaching the statement-root marker)")
+	c.runUnmarkRemarked(r, "unmark.remarked", inPkgs("dxil/internal/passes", "ir"))
+	r.floor("unmark.remarked", 1)
 	r.Clauses = append(r.Clauses, shallowWalkerClause)
 	c.runShallowWalker(r, "walker.shallow", inPkgs("ir", "dxil"), shallowWalkerExceptions)
 	r.floor("walker.shallow", 10)
